@@ -155,7 +155,7 @@ def run_workload(res, prop, seed, tier, tag):
         if not os.path.exists(os.path.join(cdir, 'impl.txt')):
             os.makedirs(cdir, exist_ok=True)
             open(casefile, 'w').write('\n'.join(lines) + '\n')
-            dg = build_dg(res, shapes, tag='dg_' + family)
+            dg = build_dg(res, shapes, tag='dg_' + family, setters=True)     # setter attributes are legal without the feature and must not change diff/apply
             if not dg:
                 return None
             rc, impl = run_lines([dg, casefile], timeout=3000)
